@@ -55,7 +55,7 @@ PF = gen.Profile(
 )
 PF_CHAINS = replace(PF, alap_project=False, alap_task=True, alap_chains=True, subslot=False, odd_eff=False, chain=False, onstart=False, deps=0.8, max_tasks=8,
                     calendars=False, zones=False, crossmid=False)
-PF_WHOLE = replace(PF, subslot=False, odd_eff=False, chain=False, container_deps=True, depth=3, limits=True)
+PF_WHOLE = replace(PF, subslot=False, odd_eff=False, chain=False, container_deps=True, depth=3, limits=True, local_ids=True)
 
 
 def limited(spec, p, members):
